@@ -296,12 +296,16 @@ def step? (s : Sys) : Label → Option Sys
       | .waiting =>
         match s.waiters.find? (fun w => w.oid = oid) with
         | some w =>
-          -- the send future is dropped; a permit it held goes to the next waiter
-          let ws := s.waiters.erase w
-          let ws := if w.granted then grantFirst ws else ws
-          some ({ s with waiters := ws }.complete oid .timeout (some .timeout))
+          -- `tokio::time::timeout` polls the operation before the timer: a send whose permit has been
+          -- assigned, or whose mailbox is closed, completes as itself instead of timing out
+          if w.granted = true ∨ ¬ s.rxOpen then none else
+          -- the send future is dropped while still queued for a permit
+          some ({ s with waiters := s.waiters.erase w }.complete oid .timeout (some .timeout))
         | none => none
-      | .awaiting => some (s.complete oid .timeout (some .timeout))
+      | .awaiting =>
+        -- likewise a reply that is there, or known to be lost, wins over the timer
+        if s.reply oid = .sent ∨ s.reply oid = .dropped ∨ (¬ s.rxOpen ∧ Extracted.ask_wait_watches_closed = true) then none
+        else some (s.complete oid .timeout (some .timeout))
       | _ => none
     | none => none
   | .recvReply oid =>
